@@ -216,4 +216,115 @@ theorem parseInt_minus (ds : List Char) : parseInt ('-' :: ds) = negInt ds := by
 theorem parseInt_plus (ds : List Char) : parseInt ('+' :: ds) = posInt ds := by
   simp [parseInt]
 
+/-! ### types -/
+
+theorem lk_U : grammar.lookup "_" = some rule_U := by rfl
+theorem lk_WS : grammar.lookup "WS" = some rule_WS := by rfl
+theorem lk_Whitespace : grammar.lookup "Whitespace" = some rule_Whitespace := by rfl
+theorem lk_MLCN : grammar.lookup "MultiLineCommentNoLineTerminator" = some rule_MultiLineCommentNoLineTerminator := by rfl
+theorem lk_DocString : grammar.lookup "DocString" = some rule_DocString := by rfl
+theorem lk_TypeAnnotations : grammar.lookup "TypeAnnotations" = some rule_TypeAnnotations := by rfl
+theorem lk_FieldType : grammar.lookup "FieldType" = some rule_FieldType := by rfl
+theorem lk_BaseType : grammar.lookup "BaseType" = some rule_BaseType := by rfl
+theorem lk_BaseTypeName : grammar.lookup "BaseTypeName" = some rule_BaseTypeName := by rfl
+theorem lk_ContainerType : grammar.lookup "ContainerType" = some rule_ContainerType := by rfl
+theorem lk_MapType : grammar.lookup "MapType" = some rule_MapType := by rfl
+theorem lk_SetType : grammar.lookup "SetType" = some rule_SetType := by rfl
+theorem lk_ListType : grammar.lookup "ListType" = some rule_ListType := by rfl
+theorem lk_CppType : grammar.lookup "CppType" = some rule_CppType := by rfl
+
+/-- What may follow a type in the texts considered: nothing, `>` or `,`. -/
+def StopHead (rest : List Char) : Prop := ∀ c r, rest = c :: r → (c = '>' ∨ c = ',')
+
+/-- `_` (white space and one-line comments) matches the empty string before `>`, `,` or the end. -/
+theorem under_stop (rest : List Char) (h : StopHead rest) (F : Nat) (hF : 20 ≤ F) :
+    pExpr grammar F (.ref "_") rest = .ok (.seq []) rest := by
+  obtain ⟨F', rfl⟩ : ∃ F', F = F' + 20 := ⟨F - 20, by omega⟩
+  have w1 : clsMatches [' ', '\t', '\r'] [] false false '>' = false := by decide
+  have w2 : clsMatches [' ', '\t', '\r'] [] false false ',' = false := by decide
+  cases rest with
+  | nil =>
+    simp [pExpr_ref, lk_U, rule_U, pExpr_star, pStar_succ, pExpr_choice, pChoice_cons, pChoice_nil, lk_Whitespace,
+      rule_Whitespace, pExpr_cls, lk_MLCN, rule_MultiLineCommentNoLineTerminator, pExpr_seq, pSeq_cons, pExpr_notP,
+      lk_DocString, rule_DocString, pExpr_act, pExpr_lit, matchLit]
+  | cons c r =>
+    rcases h c r rfl with rfl | rfl
+    · simp [pExpr_ref, lk_U, rule_U, pExpr_star, pStar_succ, pExpr_choice, pChoice_cons, pChoice_nil, lk_Whitespace,
+        rule_Whitespace, pExpr_cls, w1, lk_MLCN, rule_MultiLineCommentNoLineTerminator, pExpr_seq, pSeq_cons, pExpr_notP,
+        lk_DocString, rule_DocString, pExpr_act, pExpr_lit, matchLit]
+    · simp [pExpr_ref, lk_U, rule_U, pExpr_star, pStar_succ, pExpr_choice, pChoice_cons, pChoice_nil, lk_Whitespace,
+        rule_Whitespace, pExpr_cls, w2, lk_MLCN, rule_MultiLineCommentNoLineTerminator, pExpr_seq, pSeq_cons, pExpr_notP,
+        lk_DocString, rule_DocString, pExpr_act, pExpr_lit, matchLit]
+
+/-- `annotations:TypeAnnotations?` is absent before `>`, `,` or the end. -/
+theorem noanns_stop (rest : List Char) (h : StopHead rest) (F : Nat) (hF : 6 ≤ F) :
+    pExpr grammar F (.opt (.ref "TypeAnnotations")) rest = .ok .nil rest := by
+  obtain ⟨F', rfl⟩ : ∃ F', F = F' + 6 := ⟨F - 6, by omega⟩
+  cases rest with
+  | nil => simp [pExpr_opt, pExpr_ref, lk_TypeAnnotations, rule_TypeAnnotations, pExpr_act, pExpr_seq, pSeq_cons, pExpr_lit, matchLit]
+  | cons c r =>
+    rcases h c r rfl with rfl | rfl
+    · simp [pExpr_opt, pExpr_ref, lk_TypeAnnotations, rule_TypeAnnotations, pExpr_act, pExpr_seq, pSeq_cons, pExpr_lit, matchLit]
+    · simp [pExpr_opt, pExpr_ref, lk_TypeAnnotations, rule_TypeAnnotations, pExpr_act, pExpr_seq, pSeq_cons, pExpr_lit, matchLit]
+
+theorem consumed_of_eq (inp s rest : List Char) (h : inp = s ++ rest) : consumed inp rest = s := by
+  subst h; exact consumed_append s rest
+
+/-- The eight base type names of `BaseTypeName`. -/
+def baseNames : List (List Char) :=
+  [['b','o','o','l'], ['b','y','t','e'], ['i','1','6'], ['i','3','2'], ['i','6','4'], ['d','o','u','b','l','e'],
+   ['s','t','r','i','n','g'], ['b','i','n','a','r','y']]
+
+/-- The tree `FieldType` builds for a base type name without annotations. -/
+def baseTree (kw : List Char) : Tree :=
+  .act "FieldType1" kw (.lab "typ" (.act "BaseType1" kw (.seq [
+    .lab "name" (.act "BaseTypeName1" kw (.text kw)), .seq [], .lab "annotations" .nil])))
+
+theorem fieldType_base (kw : List Char) (hkw : kw ∈ baseNames) (rest : List Char) (h : StopHead rest) (F : Nat) (hF : 40 ≤ F) :
+    parse F grammar "FieldType" (kw ++ rest) = .ok (baseTree kw) rest := by
+  obtain ⟨F', rfl⟩ : ∃ F', F = F' + 40 := ⟨F - 40, by omega⟩
+  simp only [baseNames, List.mem_cons, List.mem_nil_iff, or_false] at hkw
+  rcases hkw with rfl | rfl | rfl | rfl | rfl | rfl | rfl | rfl <;>
+  · simp [parse, baseTree, pExpr_ref, lk_FieldType, rule_FieldType, pExpr_act, pExpr_lab, pExpr_choice, pChoice_cons, lk_BaseType,
+      rule_BaseType, pExpr_seq, pSeq_cons, pSeq_nil, lk_BaseTypeName, rule_BaseTypeName, pExpr_lit, matchLit,
+      under_stop rest h, noanns_stop rest h]
+    exact consumed_of_eq _ _ _ rfl
+
+/-- Literals that are tried before `Identifier` in `FieldType`: the base type names, and the
+openers of the container rules. -/
+def typeKeywords : List (List Char) :=
+  baseNames ++ [['c','p','p','_','t','y','p','e'], ['m','a','p','<'], ['s','e','t','<'], ['l','i','s','t','<']]
+
+/-- None of those literals is a prefix of the text (the negation of the recorded finding's class). -/
+def NoTypeKeywordPrefix (inp : List Char) : Prop := ∀ kw ∈ typeKeywords, matchLit false kw inp = none
+
+theorem stop_idPart {rest : List Char} (h : StopHead rest) : StopsAt idPart rest := by
+  intro c r hr
+  rcases h c r hr with rfl | rfl <;> decide
+
+theorem fieldType_named (c : Char) (s rest : List Char) (hc : idStart c = true) (hs : ∀ x ∈ s, idPart x = true)
+    (hno : NoTypeKeywordPrefix (c :: s ++ rest)) (h : StopHead rest) (F : Nat) (hF : s.length + 40 ≤ F) :
+    ∃ t, parse F grammar "FieldType" (c :: s ++ rest) = .ok t rest ∧ ∀ k, evTy (k + 1) t = some (.named (c :: s)) := by
+  obtain ⟨F', rfl⟩ : ∃ F', F = F' + 40 := ⟨F - 40, by omega⟩
+  obtain ⟨ti, hti, htag, hid⟩ := identifier_exact c s rest hc hs (stop_idPart h) (F' + 33) (by omega)
+  simp only [NoTypeKeywordPrefix, typeKeywords, baseNames, List.cons_append, List.nil_append, List.mem_cons, List.mem_nil_iff,
+    or_false, forall_eq_or_imp, forall_eq] at hno
+  obtain ⟨h1, h2, h3, h4, h5, h6, h7, h8, h9, h10, h11, h12⟩ := hno
+  simp only [parse] at hti
+  simp only [List.cons_append] at hti
+  refine ⟨.act "FieldType1" (c :: s) (.lab "typ" ti), ?_, ?_⟩
+  · simp [parse, pExpr_ref, lk_FieldType, rule_FieldType, pExpr_act, pExpr_lab, pExpr_choice, pChoice_cons, lk_BaseType,
+      rule_BaseType, pExpr_seq, pSeq_cons, lk_BaseTypeName, rule_BaseTypeName, pExpr_lit, pChoice_nil,
+      lk_ContainerType, rule_ContainerType, lk_MapType, rule_MapType, lk_SetType, rule_SetType, lk_ListType, rule_ListType,
+      lk_CppType, rule_CppType, pExpr_opt, h1, h2, h3, h4, h5, h6, h7, h8, h9, h10, h11, h12, hti]
+    exact consumed_of_eq _ _ _ rfl
+  · intro k
+    have hg : FV.Act.get (.act "FieldType1" (c :: s) (.lab "typ" ti)) "typ" = ti := by simp [FV.Act.get, FV.Act.body]
+    simp [evTy, hg, htag, hid]
+
+
+theorem evTy_baseTree (kw : List Char) (k : Nat) : evTy (k + 1) (baseTree kw) = some (.base kw []) := by
+  simp [evTy, baseTree, FV.Act.get, FV.Act.body, tagOf, textOf, evAnns, isNil, findLab]
+
+
 end FV.PegIdl
